@@ -250,6 +250,35 @@ def deterministic_oracles(ctx, rng):
                                'a refused re-fit leaves tau and theta as they were; the model samples like a fresh fit of data0',
                                f'{fam}.sample:refused-refit-changes-model')
                 break
+    # (ii-c) a returned sample belongs to the caller: drawing again (same model, another model, another family) leaves
+    # an earlier sample as it was — at small and at large sizes (no shared scratch buffer handed out)
+    for n_ in (5, 1500, 20000):
+        fams = B.FAMS if n_ <= 1500 else ('clayton',)
+        for fam in fams:
+            th = 2.0 if fam != 'frank' else 4.0
+            a, b = B.make(fam, th), B.make(fam, th * 1.5)
+            a.set_random_state(3)
+            b.set_random_state(4)
+            checked += 1
+            try:
+                with np.errstate(all='ignore'):
+                    first = a.sample(n_)
+                    keep = np.array(first, copy=True)
+                    b.sample(n_)
+                    other = B.make('clayton', 1.0)
+                    other.set_random_state(5)
+                    other.sample(n_)
+                    a.sample(n_)
+            except Exception as e:  # noqa
+                ctx.count(f'sample-ownership:{fam}:raises({vc.exc_kind(e)})')
+                continue
+            if not np.array_equal(np.asarray(first), keep):
+                found += 1
+                i = int(np.argmax(np.any(np.asarray(first) != keep, axis=1)))
+                ctx.fail_input(f'{fam}.sample', {'theta': th, 'n': n_, 'history': 'x = a.sample(n); b.sample(n); clayton.sample(n); a.sample(n); look at x again'},
+                               {'row': i, 'as_returned': keep[i].tolist(), 'now': np.asarray(first)[i].tolist()},
+                               'a returned sample keeps its values whatever is sampled afterwards', f'{fam}.sample:earlier-sample-overwritten')
+                break
     # (v) repeated calls on one seeded model: the model's own stream advances from call to call and is a function of
     # (parameters, seed, call number) only — whatever the global NumPy state is before each call
     for fam in B.FAMS:
